@@ -66,10 +66,20 @@ def run(c):
             n, mode, env, chunk = job
             t = c.record(rd, [mode], mpi=n, env=dict(mca, **env), out=c.path("d-%s-%d.ndjson" % (mode, n)), timeout=1500,
                          hang_is_violation=True, sig={"np": n, "mode": mode})
-            return validate(t, "%s@%dranks" % (mode, n), chunk)
+            res = validate(t, "%s@%dranks" % (mode, n), chunk)
+            if res is not None and mode == "random":
+                # drift pass: recorded pattern / split storage vs the transcription (informational)
+                sub = c.path("drift-%d.ndjson" % n)
+                pick = [x for x in res["lines"] if x.startswith('{"k":"pattern"') or x.startswith('{"k":"build"')]
+                open(sub, "w").write("\n".join(pick) + "\n")
+                res["drift"] = c.tlc_trace("C11Trace", sub, label="drift@%dranks" % n, env={"C11MODE": "drift"})["bad"] if pick else []
+            return res
         for res in c.parallel([lambda j=j: one(j) for j in jobs], max_workers=3):
             if res is None:
                 continue
+            if res.get("drift"):
+                c.drift("%d recorded patterns / splits are stored differently from CommPattern.tla's PatternRun / DistMatrix.tla's SplitRun "
+                        "although the predicates hold (first: line %d)" % (len(res["drift"]), res["drift"][0][0]))
             for ln in res["lines"][:60000:1499]:
                 c.sample(ln, limit=8)
             for ln in res["lines"]:
